@@ -14,8 +14,9 @@ import sys
 CFG = {
     # hash-form sweeps are skipped everywhere (`hash` in the token) unless `keep_hash`
     "packer": {"k": 20, "maxlen": 240},
-    # hc/hd/hrd: sweeps; rd/rc print what the C++ reference answers (a stand-in under Miri)
-    "huffman": {"k": 12, "maxlen": 240, "skip": {"hc", "hd", "hrd", "rd", "rc"}},
+    # hc/hd/hrd: sweeps; rd/rc print what the C++ reference answers (a stand-in under Miri);
+    # tiefreq/repr walk the whole table (9 minutes under Miri for the two requests)
+    "huffman": {"k": 12, "maxlen": 240, "skip": {"hc", "hd", "hrd", "rd", "rc", "tiefreq", "repr"}},
     "packet6": {"k": 20, "maxlen": 240},
     "packet7": {"k": 10, "maxlen": 240},
     # pair/sweep consult the C++ snapshot reference
